@@ -10,7 +10,7 @@
                     returns at least the requested capacity (what Go's growslice guarantees). *)
 From Coq Require Import List ZArith.
 From GrolModel Require Import Containers.
-From GrolProofs Require Import Containers_proofs.
+From GrolProofs Require Import Containers_proofs Containers_outcomes.
 Import ListNotations.
 
 (* after ANY sequence of statements, with ANY thresholds and ANY capacity oracle, a statement leaves what every
@@ -54,6 +54,38 @@ Theorem C06_size_independent_exec : forall (c : cfg) (o : oracle), cow c = true 
   read_store fuel (sheap st) (sstore st) = Some ps -> ps = run_pure ops.
 Proof. exact refinement_exec. Qed.
 
+(* ---- "a program's meaning never depends on how many elements a container happens to hold", made explicit.
+   The OUTCOME of every statement after any history - the value it evaluates to, an error, a stop outside the model's
+   domain - is the outcome of the pure model (OutcomeAbs: the value abstracts to the pure value / same boolean / same kind
+   of failure), and the state it leaves is the pure state *)
+Theorem C06_outcome_pure : forall (c : cfg) (o : oracle), cow c = true -> good o ->
+  forall (ops : list op) (op : op),
+  let r := op_step c o (run c o ops) op in
+  let pr := p_op_step (run_pure ops) op in
+  OutcomeAbs c (sheap (fst r)) (snd r) (snd pr) /\ AbsState c (fst r) (fst pr).
+Proof. exact outcome_pure. Qed.
+(* two machines with ANY two pairs of thresholds and ANY two capacity oracles, same statements: every binding has the
+   same readings ... *)
+Theorem C06_threshold_independent : forall (c1 : cfg) (o1 : oracle) (c2 : cfg) (o2 : oracle),
+  cow c1 = true -> good o1 -> cow c2 = true -> good o2 ->
+  forall (ops : list op) (y : var) (p : pval),
+  reads c1 (run c1 o1 ops) y p <-> reads c2 (run c2 o2 ops) y p.
+Proof. exact threshold_independent_reads. Qed.
+(* ... the next statement has the same outcome in both (one pure outcome q, and no other, describes both) ... *)
+Theorem C06_threshold_independent_outcome : forall (c1 : cfg) (o1 : oracle) (c2 : cfg) (o2 : oracle),
+  cow c1 = true -> good o1 -> cow c2 = true -> good o2 ->
+  forall (ops : list op) (op : op),
+  let r1 := op_step c1 o1 (run c1 o1 ops) op in
+  let r2 := op_step c2 o2 (run c2 o2 ops) op in
+  exists q : pstatus, OutcomeAbs c1 (sheap (fst r1)) (snd r1) q /\ OutcomeAbs c2 (sheap (fst r2)) (snd r2) q /\
+    forall q', (OutcomeAbs c1 (sheap (fst r1)) (snd r1) q' \/ OutcomeAbs c2 (sheap (fst r2)) (snd r2) q') -> q' = q.
+Proof. exact threshold_independent_outcome. Qed.
+(* ... and in particular it fails in one exactly when it fails in the other *)
+Theorem C06_threshold_independent_failure : forall (c1 : cfg) (o1 : oracle) (c2 : cfg) (o2 : oracle),
+  cow c1 = true -> good o1 -> cow c2 = true -> good o2 ->
+  forall (ops : list op) (op : op),
+  status_kind (snd (op_step c1 o1 (run c1 o1 ops) op)) = status_kind (snd (op_step c2 o2 (run c2 o2 ops) op)).
+Proof. exact threshold_independent_failure. Qed.
 (* ---- the pinned code (cow = false: no clone before write, no clipped append) aliases: three witnesses *)
 Definition exact_oracle : oracle := fun _ _ n => n.
 Definition slack_oracle : oracle := fun _ _ n => n + 3.
@@ -110,9 +142,35 @@ Proof.
   vm_compute. repeat split.
 Qed.
 
+(* non-vacuity of the threshold-independence theorems: thresholds 8/4 with slack capacities against thresholds 2/1 with
+   exact capacities (there every container below is "large"): the same readings after copy / write / append / del, an
+   out-of-bounds index assignment fails in both, a get evaluates to the same value in both *)
+Example C06_ex_thresholds :
+  let tiny := mkcfg 2 1 true in
+  let m3 := [(1, EInt 1); (2, EInt 2); (3, EInt 3)]%Z in
+  let ops := [OPrim (PArrLit 0 (ilist [1;2;3;4;5]%Z)); OPrim (PCopy 1 0); OPrim (PIdxSet 1 0 (EInt 99));
+              OPrim (PPlus 2 0 (EInt 6)); OPrim (PMapLit 3 m3); OPrim (PCopy 4 3); OPrim (PDel 4 2)] in
+  let s1 := run repo_cfg slack_oracle ops in
+  let s2 := run tiny exact_oracle ops in
+  cow tiny = true /\ good exact_oracle /\
+  reading s1 0 = Some (plist [1;2;3;4;5]%Z) /\ reading s2 0 = Some (plist [1;2;3;4;5]%Z) /\
+  reading s1 1 = Some (plist [99;2;3;4;5]%Z) /\ reading s2 1 = Some (plist [99;2;3;4;5]%Z) /\
+  reading s1 3 = reading s2 3 /\ reading s1 4 = Some (PMap [(1, PInt 1); (3, PInt 3)]%Z) /\ reading s2 4 = reading s1 4 /\
+  snd (op_step repo_cfg slack_oracle s1 (OPrim (PIdxSet 0 7 (EInt 1)))) = Failed /\
+  snd (op_step tiny exact_oracle s2 (OPrim (PIdxSet 0 7 (EInt 1)))) = Failed /\
+  snd (op_step repo_cfg slack_oracle s1 (OPrim (PGet 5 0 1))) = Done (RV (VInt 2)) /\
+  snd (op_step tiny exact_oracle s2 (OPrim (PGet 5 0 1))) = Done (RV (VInt 2)).
+Proof.
+  split; [reflexivity|]. split; [intros kv c n; unfold exact_oracle; apply Nat.le_refl|].
+  vm_compute. repeat split.
+Qed.
 Print Assumptions C06_no_aliasing.
 Print Assumptions C06_reading_unique.
 Print Assumptions C06_plus_preserves_operands.
 Print Assumptions C06_size_independent.
 Print Assumptions C06_reads_pure.
 Print Assumptions C06_size_independent_exec.
+Print Assumptions C06_outcome_pure.
+Print Assumptions C06_threshold_independent.
+Print Assumptions C06_threshold_independent_outcome.
+Print Assumptions C06_threshold_independent_failure.
